@@ -20,7 +20,7 @@ with open(os.path.join(os.path.dirname(os.path.dirname(os.path.abspath(__file__)
 
 QUOTED = re.compile(r'"([^"]*)"')
 VN = 0x6162636465666768   # vnode ids with no zero byte: a text slice that starts one byte early would show it
-NPAT = 7
+NPAT = 9
 ANSI = re.compile(r'\x1b\[[0-9;]*m')
 INVISIBLE = ['\t', 'a', '\u00a0', '\u200d', 'b', '\u3000', '\u00ad', '\uf8ff', '\u202f']
 SPECIAL = '{}%s\\{0}$(['
@@ -45,6 +45,12 @@ def text(L, pattern):
             s += INVISIBLE[i % len(INVISIBLE)]
             i += 1
         s += 'x' * (L - len(s.encode()))
+    elif pattern == 7:   # a relative text that ENDS with the characters recorders use as filler ('>'), preceded by a dot run
+        k = min(L, 3)
+        s = ('a' + '.' * (L - k - 1) if L - k >= 1 else '') + '>' * k
+    elif pattern == 8:   # terminal escape sequences inside the text (a file may be called anything)
+        unit = '\x1b[31mr\x1b[0m'
+        s = (unit * (L // len(unit) + 1))[:L]
     elif pattern == 5:   # characters that mean something to str.format, %-formatting and regexes
         s = ''.join(SPECIAL[i % len(SPECIAL)] for i in range(L))
     else:                # blanks and dots: every chunk ends with a character a careless strip() would eat
@@ -172,11 +178,16 @@ def judge_listing(kind, L, pattern):
     blob = B.v2([(1, 10, 'p'), (5, 10, 'p')], 0, recs)
     ref = [str(t) for t in run(evs)[0]]
     bad = []
-    for color in (False, True):
+    # the command-line tool (plain output): every printed line ends with exactly the trace's text
+    from mc.cli import run_cli
+    code, out_lines, exc = run_cli(blob, ['traces', '--no-color'])
+    if code != 0 or exc is not None or len(out_lines) != len(ref) or not all(l.endswith(r) for l, r in zip(out_lines, ref)):
+        return [('command-line-line-does-not-end-with-the-text', {'exit': code, 'error': repr(exc)[:120], 'lines': out_lines[:2], 'text': ref[:2]})]
+    for color in ((False, True) if pattern != 8 else (False,)):
         f = PyKdebugParser()
         f.color = color
         try:
-            lines = [ANSI.sub('', x) for x in f.formatted_traces(io.BytesIO(blob), dict(E.codes()))]
+            lines = [ANSI.sub('', x) if color else x for x in f.formatted_traces(io.BytesIO(blob), dict(E.codes()))]
         except Exception as ex:
             return [('listing-raised:' + type(ex).__name__, {'error': repr(ex)[:200], 'len': L, 'color': color})]
         if len(lines) != len(ref) or not all(l.endswith(r) for l, r in zip(lines, ref)) or (want and ref != [want]):
@@ -325,7 +336,7 @@ class C08(Check):
                         for sig, detail in judge_headless(kind, L, pattern):
                             acc.violation(sig, {'kind': 'headless', 'what': kind, 'len': L, 'pattern': pattern}, detail)
                         acc.case(nontrivial=True, transitions=nrec, state=h64((kind, 'headless')))
-                    if pattern in (5, 6) and L % 7 == 3:
+                    if pattern in (5, 6, 7, 8) and (L % 7 == 3 or L in (24, 56, 184)):
                         for sig, detail in judge_listing(kind, L, pattern):
                             acc.violation(sig, {'kind': 'listing', 'what': kind, 'len': L, 'pattern': pattern}, detail)
                         acc.case(nontrivial=True, transitions=2 * nrec, state=h64((kind, 'listing')))
